@@ -542,12 +542,12 @@ impl GlyphClosure for ContextFormat1<'_> {
         };
 
         // now for each rule set that applies to a current glyph:
-        for (i, seq) in coverage
+        for (first_glyph, seq) in coverage
             .iter()
             .zip(self.rule_sets())
-            .enumerate()
-            .filter_map(|(i, (gid, seq))| {
-                seq.filter(|_| cur_glyphs.contains(gid)).map(|seq| (i, seq))
+            .filter_map(|(gid, seq)| {
+                seq.filter(|_| cur_glyphs.contains(gid))
+                    .map(|seq| (gid, seq))
             })
         {
             for rule in seq?.rules() {
@@ -570,11 +570,14 @@ impl GlyphClosure for ContextFormat1<'_> {
                         // it with the full current glyph set
                         None
                     } else if sequence_idx == 0 {
-                        Some(IntSet::from([coverage.iter().nth(i).unwrap()]))
+                        Some(IntSet::from([first_glyph]))
                     } else {
-                        Some(IntSet::from([rule.input_sequence()
-                            [sequence_idx as usize - 1]
-                            .get()]))
+                        // the sequence index is not validated when parsing
+                        let glyph = rule
+                            .input_sequence()
+                            .get(sequence_idx as usize - 1)
+                            .ok_or(ReadError::OutOfBounds)?;
+                        Some(IntSet::from([glyph.get()]))
                     };
                     ctx.add_todo(lookup_id, active_glyphs);
                 }
@@ -731,11 +734,12 @@ impl GlyphClosure for ContextFormat2<'_> {
                     } else if seq_idx == 0 {
                         Some(intersect_class(&classdef, &cur_glyphs, class_i))
                     } else {
-                        Some(intersect_class(
-                            &classdef,
-                            ctx.glyphs(),
-                            rule.input_sequence()[seq_idx as usize - 1].get(),
-                        ))
+                        // the sequence index is not validated when parsing
+                        let class = rule
+                            .input_sequence()
+                            .get(seq_idx as usize - 1)
+                            .ok_or(ReadError::OutOfBounds)?;
+                        Some(intersect_class(&classdef, ctx.glyphs(), class.get()))
                     };
 
                     ctx.add_todo(lookup_id, active_glyphs);
